@@ -594,7 +594,11 @@ class FileSystem(SimComponent):
             self.sys_log.error(f"Unable to restore folder {folder_name}. Folder is not in deleted folder list.")
             return False
 
-        self.deleted_folders.pop(folder.uuid, None)
+        if self.deleted_folders.pop(folder.uuid, None) is not None:
+            # a newer folder of the same name may have taken over the request route while this one was deleted
+            self._folder_request_manager.add_request(
+                name=folder.name, request_type=RequestType(func=folder._request_manager)
+            )
         folder.restore()
         self.folders[folder.uuid] = folder
         return True
